@@ -32,6 +32,8 @@
 ; path joining and formatting are uninterpreted (format string and arguments determine the result)
 (declare-fun pjoin2 (GStr GStr) GStr)
 (declare-fun pjoin3 (GStr GStr GStr) GStr)
+(declare-fun pjoin4 (GStr GStr GStr GStr) GStr)
+(declare-fun sprintf2 (GStr Int Int) GStr)
 (declare-fun sprintf3 (GStr Int Int Int) GStr)
 (declare-fun sprintf4 (GStr Int Int Int Int) GStr)
 ; strings.HasPrefix and regular-expression matching are uninterpreted
